@@ -693,10 +693,11 @@ pub fn run(tier: Tier) -> Report {
     long_range_sweep(&rep, tier);
     unmerged_histories(&rep, tier, &ops);
     start_code_sweep(&rep, tier);
+    source_fault_sweep(&rep, tier);
 
     rep.set_rule(
         "BFS to fixpoint over the reader's exact state (bytes pulled, buffer length, bit offset, grown?, and the ring buffer's physical layout: capacity and first-slice length) for every source; every operation of the alphabet applied in every state, every step compared with a bit-vector model, a drain probe at every new state; \
-         plus every history of 4 (thorough 5) operations over a reduced alphabet without state merging, with a drain probe at the end; plus a start code at every bit position 0..150 of zero-free noise, searched after look-aheads that left up to 200 bits buffered and skips of 0..8 bits, with and without in_error; plus a one-step sweep of all two-byte sources x offsets x widths x types; plus a long-range sweep (one skip of 2^k + d bits, k = 3..25 (thorough 28), d = -9..9, from bit offsets 0, 3 and 8 of a multi-megabyte source, then reads of several widths in four orders and the exact reader state, or the same inside a transaction that fails and must leave the reader where it started; and skips beyond the end of the source up to u32::MAX); non-trivial transition = transaction/union/look-ahead/grow, or any step ending off a byte boundary",
+         plus every history of 4 (thorough 5) operations over a reduced alphabet without state merging, with a drain probe at the end; plus every pair of primitives with at most one departure from the byte source's default answer (the k-th read reports Interrupted / WouldBlock / another error, or one byte per read); plus a start code at every bit position 0..150 of zero-free noise, searched after look-aheads that left up to 200 bits buffered and skips of 0..8 bits, with and without in_error; plus a one-step sweep of all two-byte sources x offsets x widths x types; plus a long-range sweep (one skip of 2^k + d bits, k = 3..25 (thorough 28), d = -9..9, from bit offsets 0, 3 and 8 of a multi-megabyte source, then reads of several widths in four orders and the exact reader state, or the same inside a transaction that fails and must leave the reader where it started; and skips beyond the end of the source up to u32::MAX); non-trivial transition = transaction/union/look-ahead/grow, or any step ending off a byte boundary",
     );
     rep.sample(json!({"source": "00 80 a5", "history": ["read_bits::<u32>(1)", "commit", "with_transaction{read 17 bits; fail}", "read_u8"]}));
     rep.sample(json!({"source": "ff 80 00 40 12", "history": ["skip_bits(7)", "recognize_start_code(false) -> Some(2)"]}));
@@ -898,6 +899,123 @@ fn start_code_sweep(rep: &Report, tier: Tier) {
     rep.add_transitions(3 * n);
     rep.add_states(n);
     rep.extra("start_code_search_cases", json!(n));
+}
+
+/// Source seam with environment answers: the `fail_at`-th call of `read` answers with an I/O error
+/// of the given kind instead of data (once); `chunk` limits how many bytes one call delivers.
+struct FaultSrc<'a> {
+    data: &'a [u8],
+    pos: usize,
+    calls: usize,
+    fail_at: Option<(usize, std::io::ErrorKind)>,
+    chunk: usize,
+}
+impl Read for FaultSrc<'_> {
+    fn read(&mut self, buf: &mut [u8]) -> std::io::Result<usize> {
+        let c = self.calls;
+        self.calls += 1;
+        if let Some((k, kind)) = self.fail_at {
+            if k == c {
+                return Err(std::io::Error::new(kind, "injected"));
+            }
+        }
+        let n = buf.len().min(self.data.len() - self.pos).min(self.chunk);
+        buf[..n].copy_from_slice(&self.data[self.pos..self.pos + n]);
+        self.pos += n;
+        Ok(n)
+    }
+}
+
+/// Deviation-bounded environment: every pair of primitives of a reduced alphabet on a few sources,
+/// with at most one departure from the default answer of the byte source - the k-th `read` call
+/// (every k) reports `Interrupted` (to be retried transparently) or `WouldBlock` (the operation may
+/// fail, must consume nothing, and succeeds when repeated) - and with sources that deliver one byte
+/// per call. Afterwards every remaining bit is drained and compared.
+fn source_fault_sweep(rep: &Report, tier: Tier) {
+    let prims = [Prim::Read32(1), Prim::Read32(9), Prim::Read32(17), Prim::Read32(32), Prim::Peek32(25), Prim::Skip(13), Prim::Signed16(11), Prim::ReadU8, Prim::Sc(false), Prim::Sc(true), Prim::Vlc(0), Prim::Umv];
+    let srcs: Vec<Vec<u8>> = vec![
+        vec![0xA5, 0x3C, 0x96, 0x0F, 0xF0, 0x69, 0xC3, 0x5A, 0x81, 0x7E],
+        vec![0xFF, 0x00, 0x00, 0x80, 0x12, 0x00, 0x00, 0x80, 0x01, 0x55],
+        vec![0x00, 0x00, 0x40, 0x00, 0x00, 0x2A, 0xAA, 0xA0],
+    ];
+    let kinds = [std::io::ErrorKind::Interrupted, std::io::ErrorKind::WouldBlock, std::io::ErrorKind::Other];
+    let tabs = tables();
+    let mut work = vec![];
+    for (si, _) in srcs.iter().enumerate() {
+        for a in 0..prims.len() {
+            for b in 0..prims.len() {
+                work.push((si, a, b));
+            }
+        }
+    }
+    let n: u64 = work
+        .par_iter()
+        .map(|&(si, a, b)| {
+            let data = &srcs[si];
+            let bits = bits_of(data);
+            let mut count = 0u64;
+            let faults: Vec<Option<(usize, std::io::ErrorKind)>> = std::iter::once(None).chain((0..=data.len() + 1).flat_map(|k| kinds.iter().map(move |kd| Some((k, *kd))))).collect();
+            for fault in &faults {
+                for chunk in [usize::MAX, 1] {
+                    if chunk == 1 && fault.is_some() && !tier.thorough() {
+                        continue;
+                    }
+                    count += 1;
+                    let mut rd = H263Reader::from_source(FaultSrc { data, pos: 0, calls: 0, fail_at: *fault, chunk });
+                    let mut m = Model { bits: &bits, avail: bits.len(), pos: 0 };
+                    let r = catch(|| -> Result<(), String> {
+                        for (step, p) in [prims[a], prims[b]].into_iter().enumerate() {
+                            let before = m.pos;
+                            let acc = m.prim(p);
+                            let mut got = do_prim(&mut rd, p, &tabs);
+                            if matches!(&got, Out::Other(_)) && fault.map(|f| f.1 != std::io::ErrorKind::Interrupted).unwrap_or(false) {
+                                // the injected error surfaced: nothing may have been consumed, and the
+                                // repeated operation must now give the model's answer (VLC / UMV reads leave
+                                // the position undefined after an error, so they are re-run from a fresh reader)
+                                if matches!(p, Prim::Vlc(_) | Prim::Umv) {
+                                    return Ok(());
+                                }
+                                got = do_prim(&mut rd, p, &tabs);
+                            }
+                            if !acc.contains(&got) {
+                                return Err(format!("step {step} {p:?} at model position {before}: reader returned {got:?}, model allows {acc:?}"));
+                            }
+                            if got.failed() {
+                                m.pos = before;
+                                if matches!(p, Prim::Vlc(_) | Prim::Umv) {
+                                    return Ok(());
+                                }
+                            }
+                        }
+                        let mut gotbits = vec![];
+                        loop {
+                            match rd.read_bits::<u8>(1) {
+                                Ok(v) => gotbits.push(v == 1),
+                                Err(e) if e.is_eof_error() => break,
+                                Err(_) => continue, // the injected fault, if it had not fired yet
+                            }
+                            if gotbits.len() > bits.len() + 8 {
+                                return Err("drain delivers more bits than the source holds".into());
+                            }
+                        }
+                        if gotbits != bits[m.pos..] {
+                            return Err(format!("drain delivers {} bits, the source has {} left from position {}", gotbits.len(), bits.len() - m.pos, m.pos));
+                        }
+                        Ok(())
+                    })
+                    .unwrap_or_else(|pm| Err(format!("panic {pm}")));
+                    if let Err(e) = r {
+                        let class = if e.contains("panic") { panic_sig(e.split("panic ").nth(1).unwrap_or(&e)) } else { format!("C14/source-answer-{}", match fault { None => "chunked".to_string(), Some((_, k)) => format!("{k:?}") }) };
+                        rep.violation(&class, format!("source {} delivering {} per read, fault {:?}: [{:?}, {:?}]: {e}", hex(data), if chunk == 1 { "one byte" } else { "everything asked for" }, fault, prims[a], prims[b]), json!({"kind": "reader-fault", "source": hex(data), "chunk": if chunk == 1 { 1 } else { 0 }, "fault": format!("{fault:?}"), "ops": [format!("{:?}", prims[a]), format!("{:?}", prims[b])], "error": e}));
+                    }
+                }
+            }
+            count
+        })
+        .sum();
+    rep.add_transitions(2 * n);
+    rep.add_states(n);
+    rep.extra("source_answer_cases", json!(n));
 }
 
 /// byte `i` of the long pseudo-random source
